@@ -59,6 +59,9 @@ def gen_cases(tier, seed):
         for dt in b["dtypes"]:
             for ss in b["shapes"]:
                 yield {"N": N, "dtype": dt, "ss": list(ss), "seed": seed}
+    for N in ((8192, 100003) if tier == "quick" else (8192, 30011, 100003)):
+        for dt in b["dtypes"]:
+            yield {"kind": "long", "N": N, "dtype": dt}
 
 
 def shift_shapes(ss):
@@ -171,8 +174,45 @@ def exact_elementwise(arr_or_scalar, ss):
     return out
 
 
+def long_case(case, res):
+    """Long signals and large shifts: the phase ramp must stay accurate far from the origin (float64 FFT reference)."""
+    N = case["N"]
+    dtype = np.dtype(case["dtype"])
+    rng = np.random.default_rng(33)
+    x = rng.uniform(-1, 1, (N, 2))
+    if dtype.kind == "c":
+        x = x + 1j * rng.uniform(-1, 1, (N, 2))
+    x = x.astype(dtype)
+    z = make_signal(N, dtype, (2,), x)
+    f = np.fft.fftfreq(N)[:, None]
+    X = np.fft.fft(x.astype(complex), axis=0)
+    for sv in (N // 4 + 0.5, -(N // 2 - 3), 6000.25 if N > 7000 else 60.25, np.array([N // 3, -(N // 5) + 0.75])):
+        out = pb.time_shift(z, sv)
+        res.transitions += 1
+        res.traces += 1
+        res.state(("long", N, str(dtype), str(sv)))
+        sarr = np.broadcast_to(np.asarray(sv, dtype=float), (2,))
+        ref = np.fft.ifft(X * np.exp(-2j * np.pi * f * sarr[None, :]), axis=0)
+        if dtype.kind != "c":
+            ref = ref.real
+        for j, s_ in enumerate(sarr):
+            if s_ > 0:
+                ref[:math.ceil(s_), j] = 0
+            elif s_ < 0:
+                ref[N - math.ceil(-s_):, j] = 0
+        e = float(np.max(np.abs(np.asarray(out.data) - ref)))
+        if not res.ratio("long-signal err / (64 eps32)", e, 64 * EPS32):
+            res.violation("time_shift|long signal|values", f"N={N} {dtype} shift {sv}: max |out - reference| = {e:.3g} (budget "
+                          f"{64 * EPS32:.3g}); phase accuracy is lost for large shifts", case, {"shift": str(sv)})
+    res.hits["long signal, large shift"] += 1
+    res.sample({"long": N, "dtype": str(dtype)}, 1)
+    return res
+
+
 def check_case(case):
     res = report.Result()
+    if case.get("kind") == "long":
+        return long_case(case, res)
     N, ss = case["N"], tuple(case["ss"])
     dtype = np.dtype(case["dtype"])
     is_c = dtype.kind == "c"
@@ -432,7 +472,7 @@ def main(argv=None):
         PID, gen_cases=gen_cases, check_case=check_case, describe=describe,
         required_hits=["zero-fill rows checked", "length-1 shift axis broadcast over a longer sample axis",
                        "shift array with fewer axes than the sample shape", "|s| >= N (all zero)", "crop to empty",
-                       "mixed-sign crop", "time Quantity shift", "Quantity unit not reciprocal to the rate unit", "negative zero in a shift array", "argument forms", "too many dims rejected",
+                       "mixed-sign crop", "time Quantity shift", "Quantity unit not reciprocal to the rate unit", "negative zero in a shift array", "argument forms", "long signal, large shift", "too many dims rejected",
                        "complex even-N fractional (two Nyquist conventions accepted)",
                        "all-zero shift (identity fast path)"],
         assumptions=["phase ramp is single precision by design: value budget 16*eps32*max|x| (a more accurate implementation passes)",
